@@ -2,5 +2,8 @@
 EXTENDS ConstFold
 ASSUME InRange
 ASSUME Emit
+ASSUME TableConsistent
+ASSUME EmitEnums
+ASSUME EmitRefs
 ASSUME PrintT("UNIVERSE " \o ToString(Cardinality(Universe)) \o " generated " \o ToString(Cardinality(Generated)))
 =============================================================================
